@@ -28,6 +28,8 @@ mod object;
 mod parser;
 mod repl;
 mod scanner;
+#[cfg(p2sh_verif)]
+mod verif;
 mod vm;
 
 const HISTORY_LINES: usize = 8;
